@@ -1375,8 +1375,13 @@ Qed.
 Example withdraw_too_much_example :
   let t := {| t_type := TRX_WITHDRAW; t_from := 1%N; t_to := 0%N; t_from_ok := true; t_to_ok := true; t_amount := 0;
               t_price := 1; t_gas := 10; t_nonce := 0; t_payload := PWithdraw 301; t_hash := 78%N; t_sigok := true; t_evm := None |} in
-  (deliver ex_s2 t).2 = Err E_NOREWARD ∧ cum_of (deliver ex_s2 t).1 1%N = 300.
-Proof. split; vm_compute; reflexivity. Qed.
+  (deliver ex_s2 t).2 = Err E_NOREWARD ∧ cum_of (deliver ex_s2 t).1 1%N = 300 ∧
+  params_ok (gparams ex_s2) ∧ tx_wf t ∧ rewards_height_ok ex_s2.
+Proof.
+  cbv zeta. split; [vm_compute; reflexivity|]. split; [vm_compute; reflexivity|].
+  split; [vm_compute; repeat split; discriminate|]. split; [vm_compute; repeat split; discriminate|].
+  apply (rewards_height_ok_step _ (SBegin ex_hd2)), (rewards_height_ok_run ex_gen ex_block1).
+Qed.
 
 (* the run-level identity on a run with an issue and a withdrawal *)
 Definition ex_run : list sop := ex_block1 ++ [SBegin ex_hd2; SDeliver ex_withdraw; SEnd; SCommit].
@@ -1394,3 +1399,9 @@ Proof.
   split; [vm_compute; repeat split; discriminate|].
   intros req sender Hp Hs. injection Hp as <-. vm_compute in Hs. injection Hs as <-. vm_compute. split; [discriminate|reflexivity].
 Qed.
+
+Print Assumptions begin_block_rewards_exact.
+Print Assumptions withdraw_ok_inv.
+Print Assumptions withdraw_fail_frame_refuted.
+Print Assumptions reward_identity_genesis.
+Print Assumptions run_no_reward_panic.
